@@ -84,7 +84,7 @@ type mapRangeSite struct {
 	Src  string `json:"src"`
 }
 
-func funcDeclName(fd *ast.FuncDecl) string {
+func g9FuncDeclName(fd *ast.FuncDecl) string {
 	r := ""
 	if fd.Recv != nil && len(fd.Recv.List) == 1 {
 		t := fd.Recv.List[0].Type
@@ -101,7 +101,7 @@ func funcDeclName(fd *ast.FuncDecl) string {
 	return r + fd.Name.Name
 }
 
-func coqAsciiString(s string) (string, error) {
+func g9AsciiString(s string) (string, error) {
 	for i := 0; i < len(s); i++ {
 		if s[i] < 32 || s[i] > 126 {
 			return "", fmt.Errorf("non-printable byte in %q", s)
@@ -128,7 +128,7 @@ func mapRangesOf(e *Env, dir string) ([]mapRangeSite, int, error) {
 				if d.Body == nil {
 					continue
 				}
-				fn, body = funcDeclName(d), d.Body
+				fn, body = g9FuncDeclName(d), d.Body
 			case *ast.GenDecl: // function literals in package-level initialisers
 				fn, body = "<pkg-init>", d
 			}
@@ -226,15 +226,15 @@ func genMapRanges(e *Env) error {
 	fmt.Fprintf(&out, "Definition range_stmts_seen : nat := %d.\n", total)
 	var items []string
 	for _, s := range all {
-		d, err := coqAsciiString(s.Dir)
+		d, err := g9AsciiString(s.Dir)
 		if err != nil {
 			return err
 		}
-		f, err := coqAsciiString(s.Func)
+		f, err := g9AsciiString(s.Func)
 		if err != nil {
 			return err
 		}
-		x, err := coqAsciiString(s.Expr)
+		x, err := g9AsciiString(s.Expr)
 		if err != nil {
 			return err
 		}
